@@ -413,7 +413,9 @@ func (c *clientImpl) List(ctx context.Context, minKeyInclusive string, maxKeyExc
 		}
 
 		go func() {
-			_ = wg.Wait(ctx)
+			// The per-shard goroutines stop on their own when ctx is done. The channel
+			// can only be closed after the last of them is finished with it.
+			_ = wg.Wait(context.Background())
 			close(ch)
 		}()
 	}
